@@ -4,6 +4,7 @@
    Only statements, each closed by `exact`, with Print Assumptions beneath. *)
 From Coq Require Import ZArith List Bool PArith FMapPositive.
 From Cproc Require Import Model.Qbe Model.QbeWf Proofs.QbeProofs.
+From Cproc Require Import Proofs.QbeSoundType Proofs.QbeSoundClass Proofs.QbeSoundDom Proofs.QbeSoundUndef.
 Import ListNotations.
 Open Scope Z_scope.
 
@@ -83,6 +84,140 @@ Definition ex_nodom : func :=
 Example C03_example_rejected :
   wf_module [Dfunc ex_d22] = false /\ wf_module [Dfunc ex_nodom] = false.
 Proof. split; vm_compute; reflexivity. Qed.
+
+(* ------------------------------------------------------------------ soundness of rules (7), (4)/(8), (3) *)
+(* Rule (7): for every accepted module, all float operations, externals, entries and fuel, execution never
+   stops at an aggregate type without layout (parameters of a callee, aggregate actuals of a variadic call,
+   aggregate call results are the only places where the semantics asks for a layout). *)
+Theorem C03_wf_notype_sound :
+  forall m, wf_module m = true ->
+  forall fo ext nglob entry fuel t, run fo m ext nglob entry fuel <> Stuck (NoType t).
+Proof. exact wf_notype_sound. Qed.
+Print Assumptions C03_wf_notype_sound.
+
+(* ... statically: every aggregate type named by a function (return type, parameters, call results, call
+   arguments) has a layout once the module has been read. *)
+Theorem C03_wf_types_defined :
+  forall m ext f u, wf_module m = true -> In (Dfunc f) m -> In (Tagg u) (func_rtys f) ->
+    PM.find u (ge_lay (mk_genv m ext)) <> None.
+Proof. exact wf_types_defined. Qed.
+Print Assumptions C03_wf_types_defined.
+
+(* Rules (4)/(8): ... and never stops at an operand, result or return value of the wrong class, or at an
+   instruction whose shape does not fit its opcode.  Full statement (no dominance hypothesis is needed: a
+   read of a register that is not defined yet is the different result Stuck (UndefTemp _)). *)
+Theorem C03_wf_class_sound :
+  forall m, wf_module m = true ->
+  forall fo ext nglob entry fuel, run fo m ext nglob entry fuel <> Stuck BadClass.
+Proof. exact wf_class_sound. Qed.
+Print Assumptions C03_wf_class_sound.
+
+(* Rule (3): ... and never reads a register before it is defined - arbitrary control flow (loops, unreachable
+   blocks), calls and recursion included.  (Uses the rule "no phi in the first block of a function", VEntryPhi:
+   the semantics evaluates no phi on function entry.) *)
+Theorem C03_wf_undef_sound :
+  forall m, wf_module m = true ->
+  forall fo ext nglob entry fuel t, run fo m ext nglob entry fuel <> Stuck (UndefTemp t).
+Proof. exact wf_undef_sound. Qed.
+Print Assumptions C03_wf_undef_sound.
+
+(* All five together: the soundness of the checker (QbeProofs.wf_sound_statement). *)
+Theorem C03_wf_sound :
+  forall m, wf_module m = true ->
+  forall fo ext nglob entry fuel,
+    match run fo m ext nglob entry fuel with
+    | Stuck (UndefTemp _) | Stuck (NoLabel _) | Stuck BadClass | Stuck (NoType _) | Stuck FellOffEnd => False
+    | _ => True
+    end.
+Proof. exact wf_sound. Qed.
+Print Assumptions C03_wf_sound.
+
+(* The rule VEntryPhi is necessary: `@s %x =w phi @s 1  jnz %x, @s, @e` as first block runs into
+   Stuck (UndefTemp %x), and that rule is the only one that rejects it (before the rule existed this module
+   refuted the soundness statement). *)
+Theorem C03_entry_phi_rule_needed :
+  run cex_fo cex_entry_phi [] 1%positive 1%positive 10 = Stuck (UndefTemp 1%positive) /\
+  map v_kind (wf_module_list cex_entry_phi) = [VEntryPhi].
+Proof. exact cex_entry_phi_rejected. Qed.
+Print Assumptions C03_entry_phi_rule_needed.
+
+(* non-vacuity: an aggregate type, three functions, an aggregate passed by value, alloc/store/load, calls,
+   four blocks and a phi:
+     type :pair = { w, w }
+     function w $add(w %a, w %b) { @s %c =w add %a, %b  ret %c }
+     function w $sum(:pair %p) { @s %x =w loadw %p  %q =l add %p, 4  %y =w loadw %q  %z =w call $add(w %x, w %y)  ret %z }
+     function w $main() { @s %m =l alloc4 8  storew 40, %m  %n =l add %m, 4  storew 2, %n  %c =w call $sum(:pair %m)
+                             jnz %c, @a, @b   @a jmp @j   @b jmp @j   @j %r =w phi @a %c, @b 7  ret %r } *)
+Definition ex_blk (l : ident) (ps : list phi) (is : list inst) (j : jump) : block :=
+  {| b_label := l; b_phis := ps; b_insts := is; b_jump := Some j |}.
+Definition ex_add : func :=
+  {| f_lnk := nolnk; f_ret := Some (Tbase Kw); f_name := 2%positive;
+     f_params := [(Tbase Kw, 1%positive); (Tbase Kw, 2%positive)]; f_vararg := false;
+     f_blocks := [ex_blk 1%positive [] [Iop (Some (3%positive, Kw)) (Obin Badd) (RTmp 1%positive) (Some (RTmp 2%positive))] (Ret (Some (RTmp 3%positive)))] |}.
+Definition ex_sum : func :=
+  {| f_lnk := nolnk; f_ret := Some (Tbase Kw); f_name := 3%positive;
+     f_params := [(Tagg 1%positive, 1%positive)]; f_vararg := false;
+     f_blocks := [ex_blk 1%positive []
+       [Iop (Some (2%positive, Kw)) (Oload Lw) (RTmp 1%positive) None;
+        Iop (Some (3%positive, Kl)) (Obin Badd) (RTmp 1%positive) (Some (RInt 4));
+        Iop (Some (4%positive, Kw)) (Oload Lw) (RTmp 3%positive) None;
+        Icall (Some (5%positive, Tbase Kw)) (RGlo 2%positive false) [Aval (Tbase Kw) (RTmp 2%positive); Aval (Tbase Kw) (RTmp 4%positive)]]
+       (Ret (Some (RTmp 5%positive)))] |}.
+Definition ex_main2 : func :=
+  {| f_lnk := nolnk; f_ret := Some (Tbase Kw); f_name := 1%positive; f_params := []; f_vararg := false;
+     f_blocks := [
+       ex_blk 1%positive []
+         [Iop (Some (1%positive, Kl)) (Oalloc 4) (RInt 8) None;
+          Iop None (Ostore Sw) (RInt 40) (Some (RTmp 1%positive));
+          Iop (Some (2%positive, Kl)) (Obin Badd) (RTmp 1%positive) (Some (RInt 4));
+          Iop None (Ostore Sw) (RInt 2) (Some (RTmp 2%positive));
+          Icall (Some (3%positive, Tbase Kw)) (RGlo 3%positive false) [Aval (Tagg 1%positive) (RTmp 1%positive)]]
+         (Jnz (RTmp 3%positive) 2%positive 3%positive);
+       ex_blk 2%positive [] [] (Jmp 4%positive);
+       ex_blk 3%positive [] [] (Jmp 4%positive);
+       ex_blk 4%positive [{| p_res := 4%positive; p_cls := Kw; p_args := [(2%positive, RTmp 3%positive); (3%positive, RInt 7)] |}] []
+         (Ret (Some (RTmp 4%positive)))] |}.
+Definition ex_mod : module :=
+  [Dtype {| td_name := 1%positive; td_align := None; td_body := TStruct [(Fw, 1); (Fw, 1)] |};
+   Dfunc ex_add; Dfunc ex_sum; Dfunc ex_main2].
+
+Example C03_example_sound_hypotheses :
+  wf_module ex_mod = true /\
+  run fo0 ex_mod [] 3%positive 1%positive 100 = Done [] 42.
+Proof. repeat split; vm_compute; reflexivity. Qed.
+
+(* ... and a loop: the phi of @l reads %n, defined later in @l itself, along the back edge
+     function w $main() { @s jmp @l   @l %i =w phi @s 0, @l %n  %n =w add %i, 1  %c =w csltw %n, 5  jnz %c, @l, @e   @e ret %n } *)
+Definition ex_loop : module :=
+  [Dfunc {| f_lnk := nolnk; f_ret := Some (Tbase Kw); f_name := 1%positive; f_params := []; f_vararg := false;
+            f_blocks := [
+              ex_blk 1%positive [] [] (Jmp 2%positive);
+              ex_blk 2%positive
+                [{| p_res := 1%positive; p_cls := Kw; p_args := [(1%positive, RInt 0); (2%positive, RTmp 2%positive)] |}]
+                [Iop (Some (2%positive, Kw)) (Obin Badd) (RTmp 1%positive) (Some (RInt 1));
+                 Iop (Some (3%positive, Kw)) (Ocmpi false Cslt) (RTmp 2%positive) (Some (RInt 5))]
+                (Jnz (RTmp 3%positive) 2%positive 3%positive);
+              ex_blk 3%positive [] [] (Ret (Some (RTmp 2%positive)))] |}].
+
+Example C03_example_sound_hypotheses_loop :
+  wf_module ex_loop = true /\
+  run fo0 ex_loop [] 1%positive 1%positive 100 = Done [] 5.
+Proof. repeat split; vm_compute; reflexivity. Qed.
+
+(* the rules are not trivially true: an aggregate type used before its definition, an integer operand where
+   a double is expected, a result on a store, and a `ret` of a value in a function without return type are
+   all rejected *)
+Definition ex_one (ret : option rty) (is : list inst) (j : jump) : func :=
+  {| f_lnk := nolnk; f_ret := ret; f_name := 1%positive; f_params := [(Tbase Kl, 9%positive)]; f_vararg := false;
+     f_blocks := [ex_blk 1%positive [] is j] |}.
+
+Example C03_example_rejected_type_class :
+  wf_module [Dfunc ex_sum; Dtype {| td_name := 1%positive; td_align := None; td_body := TStruct [(Fw, 2)] |}] = false /\
+  wf_module [Dfunc (ex_one None [Iop (Some (1%positive, Kd)) (Obin Badd) (RInt 1) (Some (RDbl 0))] (Ret None))] = false /\
+  wf_module [Dfunc (ex_one None [Iop (Some (1%positive, Kw)) (Ostore Sw) (RInt 1) (Some (RTmp 9%positive))] (Ret None))] = false /\
+  wf_module [Dfunc (ex_one None [] (Ret (Some (RInt 1))))] = false /\
+  wf_module [Dfunc (ex_one (Some (Tbase Kw)) [] (Ret (Some (RInt 1))))] = true.
+Proof. repeat split; vm_compute; reflexivity. Qed.
 
 (* ------------------------------------------------------------------ the block-list builder of qbe.c *)
 From Cproc Require Import Model.Builder Proofs.BuilderProofs.
